@@ -23,6 +23,17 @@ CHECKS = {
              "after noreply, never blocks on a reply that will not come).",
         technique="TLA+ contract monitor (ConnRule.tla) evaluated by TLC over recorded executions (trace validation); exhaustive single-fault enumeration",
         design_ref="4 C01", note=CONN_NOTE),
+    "C05": dict(
+        category="model_checking",
+        text="TLC explores the abstract cache (spec/Cache.tla over spec/CacheRule.tla: map with expiry classes and cas versions, the "
+             "documented result of every API operation incl. noreply constants) exhaustively over all histories of length 2 of a "
+             "175-operation alphabet and by -simulate for long histories, checking the cache's own invariants (a cas token from gets is "
+             "accepted, versions unique, get_many agrees with get); every history, plus seeded random histories of length 40/60 whose cas "
+             "tokens flow from earlier gets results, is replayed into the real Client against the reference server (str/bytes keys, prefix, "
+             "default_noreply, noreply explicit or left to the documented default, reply segmentations) and every (call, result) sequence is "
+             "validated step by step by TLC against the abstract cache (spec/CacheTrace.tla).",
+        technique="TLA+ abstract-cache specification explored by TLC (exhaustive depth 2 + simulation); spec-to-code replay; TLC trace validation of every result",
+        design_ref="4 C05", note=TRUST + " lib/refserver.py stands for a faithful memcached."),
     "C06": dict(
         category="model_checking",
         text="Configuration grid (TCP with 1..3 resolved addresses, UNIX, TLS, no_delay, keepalive, five timeout pairs incl. None) x "
